@@ -75,6 +75,8 @@ known('C09', 'P7', 'cell.CellVariable.__init__/shared-BC-object', SH)
 known('C09', 'P7', 'pdesolver.solveExplicitPDE/shared-BC-object', SH)
 fixed('C15', 'faceLocations (1D) returns a copy', 'Z4 faceLocations 1D stores the mesh face array itself in the returned FaceVariable')
 
+fixed('C13', 'HCUS flux limiter guards', 'F2 HCUS: 0/0 = nan at r = -2 (no eps guard)')
+
 exec(open(os.path.join(os.path.dirname(__file__), 'known_more.py')).read()) if os.path.exists(os.path.join(os.path.dirname(__file__), 'known_more.py')) else None
 json.dump(dict(findings=f), open('/verif/known_findings.json', 'w'), indent=1)
 print(len(f), 'entries')
